@@ -60,6 +60,14 @@ func vT16Server() *Server {
 	parse := func(ctx context.Context, query string) (PreparedStatements, error) {
 		vMark("handler_start")
 		vMark("handler_end")
+		if query == "boom" {
+			fn := func(ctx context.Context, dw DataWriter, params []Parameter) error {
+				vMark("handler_start")
+				vMark("handler_end") // the handler is over once it panics
+				panic("verif: the statement panicked")
+			}
+			return Prepared(NewStatement(fn)), nil
+		}
 		if query == "ok" {
 			fn := func(ctx context.Context, dw DataWriter, params []Parameter) error {
 				vMark("handler_start")
@@ -92,6 +100,23 @@ func vT16Serve(srv *Server, lid int) {
 func vT16Conn(srv *Server, r int) {
 	var input []byte
 	stall := false
+	if r == -7 {
+		// scenario 8: a whole connection through serve — startup, then Parse, Bind and
+		// Execute of a statement that PANICS, then the input ends. Whatever the library
+		// does about the panic (report it and go on, or end the connection), the
+		// command it was raised in has ended: a Close must not wait for it forever.
+		// The embedder (this harness) recovers whatever escapes serve.
+		input = vCat(vStartup(vKV([]byte("user"), []byte("u"))),
+			vMsgBytes('P', vCat(vCStr(nil), vCStr([]byte("boom")), vU16(0))),
+			vMsgBytes('B', vCat(vCStr(nil), vCStr(nil), vU16(0), vU16(0), vU16(0))),
+			vMsgBytes('E', vCat(vCStr(nil), vU32(0))))
+		conn := vNewConn(input)
+		func() {
+			defer func() { recover() }() //nolint
+			srv.serve(context.Background(), conn) //nolint
+		}()
+		return
+	}
 	if r == -2 || r == -3 {
 		// scenarios 3 and 4: a client that goes silent in the middle of a message
 		// — an ordinary one (-2), or one that declares more than the limit of 64
